@@ -196,7 +196,7 @@ func avoidN01(s string) string {
 	var sb strings.Builder
 	for i, u := range us {
 		sb.WriteString(u)
-		if i+1 < len(us) && len(u) > 1 && u[0] == '&' && xhtml.UnescapeString(u) == "&" {
+		if i+1 < len(us) && u[0] == '&' && (len(u) == 1 || xhtml.UnescapeString(u) == "&") {
 			nx := us[i+1]
 			if len(nx) > 1 && nx[0] == '&' {
 				d := xhtml.UnescapeString(nx)
@@ -281,10 +281,6 @@ func (g *Gen) comment() *Node {
 		s = "[if !IE]><!"
 	default:
 		s = " " + g.r.Pick("c", "todo: x", "<b>not a tag</b>", "&amp;", "a > b", "-x-", "[endif]") + " "
-	}
-	if s == "[if !IE]><!" {
-		// downlevel-revealed pair start; the matching end comes as its own comment node elsewhere; as a
-		// lone comment it is still a conforming comment.
 	}
 	return &Node{Kind: KComment, Text: s}
 }
